@@ -5,7 +5,7 @@ from vf.util import VERIF, hx, unhx
 ID = "C11"
 PROP_MODULE = "SquidModel.Properties.C11"
 MODEL = "c11"
-GEN = ["reusable"]
+GEN = ["reusable", "collapse_flags"]
 RULE = ("scenario = config (default / negative_ttl / ignore-* overrides) x method x Authorization (header / URL userinfo / none) x request "
         "Cache-Control field lines x status x response Cache-Control field lines (case, spacing, duplicates, quoted arguments, numeric edge values, "
         "near-miss names, several field lines, quote tricks, byte mutations) x Content-Type x Date/Expires/Last-Modified/Age offsets x body length x "
